@@ -205,4 +205,8 @@ class Report:
         }
         with open(os.path.join(evdir, "%s.json" % self.pid), "w") as f:
             json.dump(ev, f, indent=1)
+        if os.environ.get("VERIF_DUMP_INSTANCES"):
+            # debugging aid: every instance with its facts
+            with open(os.environ["VERIF_DUMP_INSTANCES"], "w") as f:
+                json.dump(self.instances, f, indent=1, default=str)
         return lines, (1 if n else 0)
